@@ -118,6 +118,29 @@ async fn run_uni<const INSTR: usize>(variant: &str, timeout: bool, limit: u32, i
     g
 }
 
+/// C12 (third sentence) + C06 for a Multi: the log channel's oldies executor hands over to the newies executor
+async fn run_transition(seed: u64, sequential: bool, limit: u32, n_old: u32, n_new: u32, slow_old: bool) -> Vec<String> {
+    let name = format!("vh-transition-{}-{}", std::process::id(), seed);
+    let multi = Arc::new(MultiMmapLog::<u32, 4, NONE>::new(name.clone()));
+    for i in 0..n_old { let _ = multi.send(100 + i); }
+    let log = Arc::new(Mutex::new(Vec::<String>::new()));
+    let (l1, l2, l3, l4) = (log.clone(), log.clone(), log.clone(), log.clone());
+    multi.spawn_futures_oldies_executor(limit, sequential, Duration::ZERO,
+        "oldies", move |s| s.map(move |v: &u32| { let (l, v) = (l1.clone(), *v); async move { if slow_old { tokio::time::sleep(Duration::from_millis(20)).await; } l.lock().unwrap().push(format!("processed {v}")); } }),
+        move |_| { let l = l2.clone(); async move { l.lock().unwrap().push("oldies_callback".into()); } },
+        "newies", move |s| s.map(move |v: &u32| { let (l, v) = (l3.clone(), *v); async move { l.lock().unwrap().push(format!("processed {v}")); } }),
+        move |_| { let l = l4.clone(); async move { l.lock().unwrap().push("newies_callback".into()); } }).await.expect("spawn");
+    for i in 0..n_new { let _ = multi.send(200 + i); tokio::time::sleep(Duration::from_millis(1)).await; }
+    tokio::time::sleep(Duration::from_millis(60 * (n_old as u64 + 1))).await;
+    log.lock().unwrap().push("closecalled".into());
+    let ok = multi.close(Duration::ZERO).await;
+    log.lock().unwrap().push(format!("closereturned {ok}"));
+    tokio::time::sleep(Duration::from_millis(100)).await;
+    let _ = std::fs::remove_file(format!("/tmp/{name}.mmap"));
+    let r = log.lock().unwrap().clone();
+    r
+}
+
 fn runtime(multi: bool) -> tokio::runtime::Runtime {
     if multi { tokio::runtime::Builder::new_multi_thread().worker_threads(4).enable_all().build().unwrap() }
     else { tokio::runtime::Builder::new_current_thread().enable_all().start_paused(true).build().unwrap() }
@@ -134,6 +157,39 @@ fn main() {
     let mut out = TraceOut::new(&a.get("trace", ""));
     let mut rep = Report::new(&format!("exec/{sub}"));
     const VARIANTS: [&str; 4] = ["futfallible", "fut", "fallible", "plain"];
+    if sub == "transition" {
+        for i in 0..runs {
+            let seed = if a.kv.contains_key("seedx") { a.num("seedx", 0) } else { seed0.wrapping_mul(1_000_003).wrapping_add(i) };
+            let mut rng = Rng::new(seed ^ 0x7A);
+            let (sequential, limit, n_old, n_new, slow) = (rng.chance(2, 3), rng.range(1, 3) as u32, rng.range(0, 4) as u32, rng.range(0, 4) as u32, rng.chance(1, 2));
+            let rt = runtime(multi);
+            let trace = rt.block_on(run_transition(seed, sequential, limit, n_old, n_new, slow));
+            drop(rt);
+            let mut viol: Vec<(String, String)> = vec![];
+            let pos = |x: &str| trace.iter().position(|l| l == x);
+            // every event processed exactly once by the pair of executors, oldies in log order
+            for v in (0..n_old).map(|k| 100 + k).chain((0..n_new).map(|k| 200 + k)) {
+                let c = trace.iter().filter(|l| **l == format!("processed {v}")).count();
+                if c != 1 { viol.push(("transition_lost_or_duplicated".into(), format!("event {v} was processed {c} times by the oldies/newies executors (sequential={sequential}, limit={limit}, {n_old} old, {n_new} new)"))); }
+            }
+            if sequential {
+                let last_old = (0..n_old).filter_map(|k| pos(&format!("processed {}", 100 + k))).max();
+                let first_new = (0..n_new).filter_map(|k| pos(&format!("processed {}", 200 + k))).min();
+                if let (Some(lo), Some(fnw)) = (last_old, first_new) { if fnw < lo { viol.push(("new_before_old".into(), format!("with sequential_transition a new event was processed (log line {fnw}) before the last old one (line {lo}); limit={limit}"))); } }
+            }
+            for cb in ["oldies_callback", "newies_callback"] { let c = trace.iter().filter(|l| *l == cb).count(); if c != 1 { viol.push(("close_callback_count".into(), format!("{cb} ran {c} times"))); } }
+            if let (Some(cb), Some(cr)) = (pos("newies_callback"), trace.iter().position(|l| l.starts_with("closereturned"))) { let _ = (cb, cr); }
+            if !trace.iter().any(|l| l == "closereturned true") { viol.push(("close_failed".into(), "Multi::close() with an unbounded timeout answered false".into())); }
+            rep.add_run(&trace, n_old > 0 && n_new > 0, &format!("transition/seq{}/l{limit}", sequential as u8), "Completed");
+            for (k, d) in viol {
+                let header = vec![format!("cmd exec sub=transition runs=1 seedx={seed}"), format!("violation {k}: {d}")];
+                let p = write_replay(&replay_dir, &format!("{pid}-exec-transition-seed{seed}-{k}"), &header, &trace);
+                rep.violations.push(Violation { run: i, seed, kind: k, detail: d, replay: p });
+            }
+        }
+        rep.print();
+        return
+    }
     for i in 0..runs {
         let seed = if a.kv.contains_key("seedx") { a.num("seedx", 0) } else { seed0.wrapping_mul(1_000_003).wrapping_add(i) };
         let mut rng = Rng::new(seed ^ 0xE4EC);
